@@ -88,9 +88,14 @@ def main():
         jobs += file_common.c09_jobs(info, only)
     except ImportError:
         pass
+    if not only:
+        # the resynchronisation argument rests on the stream's read / relative-seekg law: discharge it here as well
+        from checks import c15
+        jobs += [core.borrow(j, 'C15', 'C09') for j in c15.jobs(1, 600)
+                 if j.name.split('UncompressedFile_')[-1] in ('read', 'seekg', 'setters_accessors_predicates')]
     rep = core.Report('C09')
     rep.assumptions = ['streams up to 64 KiB per memory object in the loop-contract proof (CBMC object bound); content and filler length otherwise arbitrary',
-                       'AbstractFile::read/seekg follow the iostream law proved of UncompressedFile in C15']
+                       'the buffer stream of the loop-contract proof (af_buf_stub.h) is the iostream law that UncompressedFile::read/seekg/tellg are proved to follow (C15 obligations, discharged in this check under C09/via-C15 labels; <= 2 containers held at once)']
     results = core.keep_property(core.run_jobs(jobs), 'C09')
     rep.add_results(results)
     core.triage(rep, results, info)
